@@ -1,6 +1,6 @@
 """C14 TCP framing: receive/extract bounds, per-connection stream offsets, would-block handling,
 faults end requests (net_tcp_async.c); blocking reader in C09."""
-from ksirules.flow import (SWAP, Guard, edge_facts, g_cmp, must_pass, path_lines, provenance, status_var)
+from ksirules.flow import (SWAP, Guard, edge_facts, g_cmp, g_ok, must_pass, path_lines, provenance, status_var)
 from ksirules.model import AnalysisBroken, is_call, is_int, is_var, lvalue_key, show, strip, walk
 from ksirules.status import stale_status
 
@@ -18,6 +18,7 @@ def run(prog, chk):
     partial_request_rule(prog, chk)
     blocking_send_table(prog, chk)
     close_reset_table(prog, chk)
+    prefix_table(prog, chk)
     _run(prog, chk)
 
 
@@ -578,3 +579,55 @@ def close_reset_table(prog, chk):
         ok = all(c == 0 for c in counts) and inlen == 0 and isinstance(fd, int) and fd < 0
         chk.ob("C14.reset", inst, ok, "expected every sent count 0, input fill level 0, socket invalid; source: sent counts %s, fill level %s, socket %s"
                % (counts, inlen, fd), loc=fn.loc(), fn=fn, nontrivial=partial is not None)
+
+
+def prefix_table(prog, chk):
+    """The asynchronous client decides "wait for more" / "extract" / "garbage: close the connection" from what KSI_FTLV_memRead leaves
+    in the element descriptor even when it fails: count = hdr_len + dat_len, then `count != 0 && inLen >= count` with a failed parse
+    means garbage.  So for every proper prefix of a well-formed PDU the reported header + payload length must exceed what is there (or
+    be zero): otherwise delivery depends on where the stream happened to be cut.  KSI_FTLV_memRead (parseHdr inlined) is evaluated on
+    every prefix length of an 8-bit-header and a 16-bit-header element, with the descriptor zeroed first as the caller does."""
+    from ksirules.bufinterp import BufInterp
+    from ksirules.interp import TOP, Ptr, inline_model, succeed_model
+    chk.rule("C14.prefix", "a proper prefix of an element is never reported with a length that what has arrived satisfies (decision table over cut points)", floor=14)
+    fn = prog.fn("KSI_FTLV_memRead", "fast_tlv.c")
+    mp, lp, tp = [p["n"] for p in fn.params]
+    # armed only while the reader looks at the descriptor of a FAILED parse (a reader that tests the status first does not depend on it)
+    fd = prog.fn("dispatch", "net_tcp_async.c")
+    uses = [(b, i) for b, i, n in fd.nodes() if n.get("k") == "asg" and "hdr_len" in text(fd, n["r"]) and "dat_len" in text(fd, n["r"])]
+    if not uses:
+        raise AnalysisBroken("dispatch: the element length is no longer computed from hdr_len + dat_len")
+    relies = must_pass(fd, {b for b, i in uses}, g_ok("KSI_FTLV_memRead")) is not None
+    if not relies:
+        chk.ob("C14.prefix", "dispatch:length-only-after-success", True, "the reader computes the element length only after a successful parse: "
+               "what a failed parse leaves in the descriptor is not used", loc=fd.loc(), fn=fd, nontrivial=False)
+        return
+    for name, hdr, dat in (("8-bit header, 3 octets of payload", [0x01, 0x03], 3), ("16-bit header, 0x0105 octets of payload", [0x82, 0x21, 0x01, 0x05], 0x105),
+                           ("16-bit header, 2 octets of payload", [0x80, 0x01, 0x00, 0x02], 2), ("8-bit header, empty payload", [0x05, 0x00], 0)):
+        total = len(hdr) + dat
+        for k in sorted(set(range(1, min(total, 7) + 1)) | {total - 1, total}):
+            if k < 1:
+                continue
+            inputs = {mp: Ptr("M"), lp: k, tp: Ptr("T"), "T->hdr_len": 0, "T->dat_len": 0, "T->tag": 0, "T->off": 0, "T->is_nc": 0, "T->is_fwd": 0}
+            for j, v in enumerate(hdr):
+                if j < k:
+                    inputs["M[%d]" % j] = v
+            I = BufInterp(fn, {"M": k}, inputs=inputs, call_model=inline_model(prog, {"parseHdr"}, fallback=succeed_model(prog, {})), on_unknown="stop", prog=prog)
+            paths = I.run()
+            chk.paths += len(paths)
+            inst = "memRead[%s, %d of %d octets there]" % (name, k, total)
+            if len(paths) != 1 or paths[0].undetermined or paths[0].ret is TOP:
+                raise AnalysisBroken("KSI_FTLV_memRead: evaluation not determined for %s: %s" % (inst, [q.undetermined[:1] for q in paths]))
+            q = paths[0]
+            hl, dl = I.read(q, "T->hdr_len"), I.read(q, "T->dat_len")
+            if not isinstance(hl, int) or not isinstance(dl, int):
+                raise AnalysisBroken("KSI_FTLV_memRead: descriptor not determined for %s: hdr_len %s dat_len %s" % (inst, hl, dl))
+            count = hl + dl
+            if k == total:
+                ok = q.ret == 0 and hl == len(hdr) and dl == dat
+                what = "expected KSI_OK with header %d + payload %d; source: status %s, header %s, payload %s" % (len(hdr), dat, q.ret, hl, dl)
+            else:
+                ok = q.ret != 0 and (count == 0 or count > k)
+                what = "expected a refusal whose reported length (header + payload) is 0 or more than the %d octets there - the reader waits; source: status %s, header %s + payload %s = %d%s" % (
+                    k, hex(q.ret) if isinstance(q.ret, int) else q.ret, hl, dl, count, "" if ok else ": taken for garbage, the connection is closed")
+            chk.ob("C14.prefix", inst, ok, what, loc=fn.loc(), fn=fn, nontrivial=k < total)
